@@ -102,7 +102,11 @@ def _pattern_ok(t, bound_ids):
     return True
 
 
+NO_TRIGGER = {"CG"}      # value spec functions that would start matching loops when used as triggers (CG(v) -> CG(v+1) -> ...)
+
+
 def make_patterns(vars_, body, avoid=()):
+    avoid = set(avoid) | NO_TRIGGER
     ids = {v.get_id() for v in vars_}
     apps = []
     _collect_apps(body, ids, apps)
